@@ -88,7 +88,8 @@ at the top-level directory.
 
 #ifdef SLU_VERIF_HOOKS
 /* Verification event hooks (off by default): kind 1 = zero pivot reported,
-   2 = ILU pivot replaced by fill tolerance, 3 = ILU MILU diagonal replaced */
+   2 = ILU pivot replaced by fill tolerance, 3 = ILU MILU diagonal replaced,
+   4 = storage grown inside the caller's workspace (a = 1 if the stack head passed the tail) */
 extern void slu_verif_event(int kind, int a, int b);
 #define SLU_VERIF_EVENT(k,a,b) slu_verif_event((k),(a),(b))
 #else
